@@ -99,3 +99,22 @@ Theorem C14_tool_compute_judge_sound : forall rec signed tr outfmt inb rc hasout
      else TOk (List.length T) (List.length C) (rep_matrix signed T C)).
 Proof. exact CliProofs.judge_cligraph_sound. Qed.
 Print Assumptions C14_tool_compute_judge_sound.
+
+(* ---------- the judge accepts EXACTLY the records that satisfy its specification: besides soundness (above) also completeness,
+   i.e. a record of a correct answer is never rejected (JudgeComplete2.v) ---------- *)
+From Cmr Require JudgeComplete2.
+Theorem C14_judge_leaf_accepts_exactly_the_specification :
+    forall rec : list Z,
+    LeafModel.judge_leaf rec = 0%Z <->
+    (exists (fn : Z) (args : list Z) (r : Z) (rest : list Z),
+    LeafJudgeProofs.leaf_input rec = Some (fn, args, r, rest) /\
+    LeafModel.leaf_gen fn args = Some (Some r) /\ LeafModel.leaf_spec fn args r = true).
+Proof. exact JudgeComplete2.judge_leaf_iff_total. Qed.
+Print Assumptions C14_judge_leaf_accepts_exactly_the_specification.
+Theorem C14_judge_reprt_accepts_exactly_the_specification :
+    forall (rec : list Z) (signed : bool) (rc cf : Z) (Mo : option (nat * nat * mat)) 
+    (rc2 v rc3 : Z) (M2o : option (nat * nat * mat)) (rest : list Z),
+    RtModel.reprt_input rec = Some (signed, rc, cf, Mo, rc2, v, rc3, M2o, rest) ->
+    RtModel.judge_reprt rec = 0%Z <-> JudgeComplete2.reprt_spec rc cf Mo rc2 v rc3 M2o.
+Proof. exact JudgeComplete2.judge_reprt_iff. Qed.
+Print Assumptions C14_judge_reprt_accepts_exactly_the_specification.
